@@ -1,6 +1,7 @@
 import JP.Check
 import JP.Legacy.Check
 import JP.Codec.EncodeWire
+import JP.Codec.Decode
 
 /-!
 # Request handling of the line-protocol driver (pure part)
@@ -606,10 +607,24 @@ def handleCodec (id : String) (args : List String) : String :=
           | some g =>
             let m : Obs := obsOf (Codec.Enc.marshalEscaped esc g)
             some (m, if sameObs m obs then .ok else .viol "encoder-differs")
+        else if fn.startsWith "dec-" then
+          -- the reflective decoder on one of the library's target shapes (`JP.Codec`): `x` = mode byte;
+          -- the harness primes the pooled state with the key list stale1,stale2,stale1
+          let stale : List Bytes := [ascii "stale1", ascii "stale2", ascii "stale1"]
+          match Codec.shapeTarget (fn.drop 4).toString, x with
+          | some t, [mode] =>
+            (match Codec.runMode mode t y stale with
+             | some out =>
+               let m : Obs := if out = ascii "panic" then .panic else if out = ascii "fuel" then .hang else .ok out
+               -- an unchecked entry point on an ill-formed text is outside the library's use: no property
+               some (m, if (parseCst y).isSome then .ok else .unspec)
+             | none => none)
+          | _, _ => none
         else none
       let fam : String := if fn = "enc" then "enc-" ++ ((Codec.Enc.decodeWire y).map Codec.Enc.wireFamily).getD "?" else fn
       match res with
-      | some (m, v) => reply id (sameObs m obs) (showObs m) [("C17", v), ("C04", if obs.bad && !(fn = "enc" && sameObs m obs) then .viol "panic-or-hang" else .ok)]
+      | some (m, v) => reply id (sameObs m obs) (showObs m) [("C17", v), ("C04", if obs.bad && !(fn = "enc" && sameObs m obs)
+                             && !(fn.startsWith "dec-" && (parseCst y).isNone && (x = [118] || x = [86])) then .viol "panic-or-hang" else .ok)]
                          (fam ++ "/" ++ obsClass obs ++ "/" ++ toString (min y.length 16))
       | none => bad id "codec-fn"
     | _, _, _ => bad id "codec-fields"
